@@ -290,7 +290,7 @@ def judge_run(P, obs, flags, isbb, hang, crash):
             elif kind == 'inq':
                 if rc != 0:
                     F.append(Finding('oracle', who + ':numrecs:rc', 'rc %d' % rc, ln, q)); continue
-                got = int(o[2]); want = a['expect'][q]
+                got = int(o[2]); want = (a['expect_bb'] if isbb else a['expect'])[q]
                 if got != want:
                     if isbb and a['extra'][q] > want and got == a['extra'][q]:
                         F.append(Finding('oracle', G.KEY_CANCEL, 'rank %d sees %d records, default driver %d (cancelled nonblocking put to record %d)'
@@ -373,6 +373,9 @@ def judge(P, r, mobs):
     for key in sorted(set(r.bb) | set(r.de)):
         if key in skip:
             continue
+        an = P.ann.get(key[0], {})
+        if an.get('kind') == 'inq' and an['expect_bb'][key[1]] != an['expect'][key[1]]:
+            continue        # a collective flush completed a pending nonblocking put before its wait: judged by the oracle
         a, b = norm_tokens(r.bb.get(key)), norm_tokens(r.de.get(key))
         if a is not None and a[0] == 'wait' and flags:
             a = [x if ':' not in x or x.startswith('B') else '0:' + x.split(':', 1)[1] for x in a]   # injected statuses judged above
